@@ -51,8 +51,23 @@ for notes in ('NOTES.md', 'NOTES.txt'):
         shutil.copy(os.path.join(wt, notes), os.path.join(dst, 'NOTES.md'))
 # 3. the checks against the change
 results = {}
-p = sh('git -C /repo apply --check %s/patch.diff && git -C /repo apply %s/patch.diff' % (dst, dst))
-if p.returncode != 0:
+if os.environ.get('SEED_EVAL_ALT'):
+    # through tools/alt_eval.sh: a scratch copy of the tree, /repo's working tree is left alone (several seeds at a time)
+    q = sh('/verif/tools/alt_eval.sh %s %s/patch.diff %s' % (sid, dst, ' '.join(checks)))
+    for l in q.stdout.decode(errors='replace').splitlines():
+        if l.startswith(sid + ' '):
+            c = l.split()[1].rstrip(':')
+            n = int(l.split('violations=')[1].split()[0]) if 'violations=' in l else -1
+            results[c] = {'violation_lines': n, 'classes': [x.strip() for x in l.split('  ', 1)[1].split(';') if x.strip()][:4] if '  ' in l else [], 'line': l[:400]}
+            print('CHECK', l[:300])
+        elif 'no longer applies' in l:
+            results['apply'] = 'failed'
+    p = None
+else:
+    p = sh('git -C /repo apply --check %s/patch.diff && git -C /repo apply %s/patch.diff' % (dst, dst))
+if p is None:
+    pass
+elif p.returncode != 0:
     print('patch does not apply to /repo HEAD:', p.stdout.decode()[-300:])
     results['apply'] = 'failed'
 else:
